@@ -390,6 +390,16 @@ func (e *kvElection) becomeLeader(token string, rev uint64) {
 		return
 	}
 
+	// An instance that already leads is not promoted a second time: a left-over
+	// acquisition attempt that succeeds beside the current term (its record had
+	// been removed or replaced) must not start a second term on top of the first
+	// without a demotion in between. The current term ends through its own
+	// heartbeat or validation, with the demotion callback, and the instance is
+	// then re-elected normally.
+	if e.isLeader.Load() {
+		return
+	}
+
 	e.isLeader.Store(true)
 	e.leaderID.Store(e.cfg.InstanceID)
 	e.token.Store(token)
@@ -523,8 +533,8 @@ func (e *kvElection) attemptPriorityTakeover(payloadBytes []byte) error {
 		return fmt.Errorf("failed to unmarshal payload after takeover: %w", err)
 	}
 
-	e.revision.Store(newRev)
-	e.token.Store(newPayloadStruct.Token)
+	// becomeLeader publishes token and revision (and declines when the instance
+	// already leads, in which case the current term's values must stay).
 	e.becomeLeader(newPayloadStruct.Token, newRev)
 	return nil
 }
